@@ -459,6 +459,34 @@ fn issue(op: &Op, r: i64, i: usize, c: &mut Commands, acc: Option<&mut Access>, 
             let slot = id - with_state(|st| st.cfg.nsys()) - 1;
             c.queue(move |_: &mut World| with_state(|st| st.once_applied[slot] = true));
         }
+        Op::On(m, s, b, k) =>
+        {
+            let id = *s as usize;
+            match m.as_str()
+            {
+                "persistent" => { let sc = c.react().on_persistent(bundle(b), plain_system(id)); with_state(|st| st.sys[id] = Some(*sc)); }
+                "revokable" =>
+                {
+                    let token = c.react().on_revokable(bundle(b), plain_system(id));
+                    let entity = *SystemCommand::from(token.clone());
+                    with_state(|st| { st.sys[id] = Some(entity); st.tokens.insert(*k, token); });
+                }
+                _ => { c.react().on(bundle(b), plain_system(id)); }
+            }
+            let slot = id - with_state(|st| st.cfg.nsys()) - 1;
+            // `on` does not say which entity it spawned: it is the one system command nobody knows yet
+            c.queue(move |w: &mut World| {
+                let found = post::system_command_entities(w);
+                with_state(|st| {
+                    if st.sys[id].is_none()
+                    {
+                        let known: Vec<Entity> = st.sys.iter().flatten().copied().collect();
+                        st.sys[id] = found.into_iter().find(|e| !known.contains(e));
+                    }
+                    st.once_applied[slot] = true;
+                });
+            });
+        }
         Op::Revoke(k) =>
         {
             let token = with_state(|st| st.tokens.get(k).cloned().unwrap());
